@@ -19,6 +19,7 @@ import (
 	"encoding/json"
 	"flag"
 	"fmt"
+	"io"
 	"os"
 	"os/exec"
 	"path/filepath"
@@ -38,6 +39,7 @@ import (
 	"github.com/facebookincubator/dns/dnsrocks/dnsdata/rdb"
 	"github.com/facebookincubator/dns/dnsrocks/dnsserver"
 	"github.com/facebookincubator/dns/dnsrocks/dnsserver/test"
+	dlogger "github.com/facebookincubator/dns/dnsrocks/logger"
 	"github.com/facebookincubator/dns/dnsrocks/metrics"
 
 	"verifharness/hlib"
@@ -56,6 +58,7 @@ type Scenario struct {
 	Cache     bool   `json:"cache"`
 	Update    bool   `json:"update"` // write to the RocksDB primary between partial reloads
 	NoStats   bool   `json:"no_stats"`
+	Logger    string `json:"logger"` // "" (DummyLogger) | text (TextLogger to io.Discard) | dnstap (logger.DNSTapLoggger, sampled)
 	Seed      uint64 `json:"seed"`
 }
 
@@ -210,6 +213,58 @@ var (
 	subnets = []string{"", "", "10.1.5.0/24", "10.2.0.0/16", "fd00:1:2::/48", "203.0.113.0/24"}
 )
 
+// mkQuery draws one question.  Besides the known names / types it keeps producing values the
+// code has NOT seen before in everything a request carries that indexes a package-level table
+// (of dnsrocks or of the libraries): query types and classes without a mnemonic, opcodes,
+// EDNS versions and option codes - so that first sights keep happening during the whole run.
+func mkQuery(r *hlib.Rng) *dns.Msg {
+	req := new(dns.Msg)
+	qt := qtypes[r.Intn(len(qtypes))]
+	if r.Chance(1, 3) {
+		for {
+			qt = uint16(300 + r.Intn(64700))
+			if _, known := dns.TypeToString[qt]; !known {
+				break
+			}
+		}
+	}
+	req.SetQuestion(names[r.Intn(len(names))], qt)
+	if r.Chance(1, 6) {
+		req.Question[0].Qclass = uint16(5 + r.Intn(65000)) // no mnemonic (CLASSnnnn), or NONE / ANY
+	}
+	if r.Chance(1, 8) {
+		req.Opcode = r.Intn(16) // QUERY, IQUERY, STATUS, NOTIFY, UPDATE and unassigned ones
+	}
+	if r.Chance(1, 10) {
+		req.Rcode = r.Intn(24) // a query normally carries 0
+	}
+	if sn := subnets[r.Intn(len(subnets))]; sn != "" {
+		if o, err := dnsserver.MakeOPTWithECS(sn); err == nil {
+			req.Extra = []dns.RR{o}
+		}
+	} else if r.Chance(1, 2) {
+		req.SetEdns0(uint16(512+r.Intn(4000)), r.Chance(1, 2))
+	}
+	if o := req.IsEdns0(); o != nil {
+		if r.Chance(1, 8) {
+			o.SetVersion(uint8(1 + r.Intn(254))) // BADVERS path
+		}
+		for k := r.Intn(3); k > 0; k-- {
+			switch r.Intn(4) {
+			case 0:
+				o.Option = append(o.Option, &dns.EDNS0_LOCAL{Code: uint16(20 + r.Intn(65000)), Data: r.Bytes(r.Intn(6), nil)})
+			case 1:
+				o.Option = append(o.Option, &dns.EDNS0_COOKIE{Code: dns.EDNS0COOKIE, Cookie: "0102030405060708"})
+			case 2:
+				o.Option = append(o.Option, &dns.EDNS0_NSID{Code: dns.EDNS0NSID})
+			case 3:
+				o.Option = append(o.Option, &dns.EDNS0_PADDING{Padding: make([]byte, r.Intn(8))})
+			}
+		}
+	}
+	return req
+}
+
 func runChild(sc Scenario, pjson string) {
 	var p paths
 	if err := json.Unmarshal([]byte(pjson), &p); err != nil {
@@ -225,9 +280,24 @@ func runChild(sc Scenario, pjson string) {
 	if sc.TimeoutUs > 0 {
 		to = time.Duration(sc.TimeoutUs) * time.Microsecond
 	}
-	h, err := dnsserver.NewFBDNSDBBasic(dnsserver.HandlerConfig{},
+	var lg dnsserver.Logger = &dnsserver.DummyLogger{}
+	switch sc.Logger {
+	case "text":
+		lg = &dnsserver.TextLogger{IoWriter: io.Discard}
+	case "dnstap":
+		// the production logger; its output loop is not started (no collector here): messages are
+		// built, sampled and enqueued until the buffer is full, then dropped
+		dl, err := dlogger.NewLogger(dlogger.Config{Target: "tcp", Remote: "127.0.0.1:9", LogFormat: "text", SamplingRate: 0.3,
+			Timeout: 1, FlushInterval: 1, Retry: 1})
+		if err != nil {
+			fmt.Fprintln(os.Stderr, "child: NewLogger:", err)
+			os.Exit(2)
+		}
+		lg = dl
+	}
+	h, err := dnsserver.NewFBDNSDBBasic(dnsserver.HandlerConfig{AlwaysCompress: sc.Logger == "text"},
 		dnsserver.DBConfig{Path: dbs[0], Driver: driver, ReloadTimeout: to},
-		dnsserver.CacheConfig{Enabled: sc.Cache, LRUSize: 64}, &dnsserver.DummyLogger{}, st)
+		dnsserver.CacheConfig{Enabled: sc.Cache, LRUSize: 64}, lg, st)
 	if err != nil {
 		fmt.Fprintln(os.Stderr, "child: NewFBDNSDBBasic:", err)
 		os.Exit(2)
@@ -313,15 +383,7 @@ func runChild(sc Scenario, pjson string) {
 							gate.RUnlock()
 						}
 					}()
-					req := new(dns.Msg)
-					req.SetQuestion(names[r.Intn(len(names))], qtypes[r.Intn(len(qtypes))])
-					if sn := subnets[r.Intn(len(subnets))]; sn != "" {
-						if o, err := dnsserver.MakeOPTWithECS(sn); err == nil {
-							req.Extra = []dns.RR{o}
-						}
-					} else if r.Chance(1, 3) {
-						req.SetEdns0(1232, r.Chance(1, 2))
-					}
+					req := mkQuery(r)
 					ctx := context.WithValue(dnsserver.WithMaxAnswer(context.Background(), 1+r.Intn(3)), gateKey{}, g)
 					rec := dnstest.NewRecorder(&test.ResponseWriterCustomRemote{RemoteIP: clients[r.Intn(len(clients))]})
 					if sc.Windows {
@@ -632,8 +694,8 @@ func scenarios(a *hlib.Args) []Scenario {
 	}
 	all := []Scenario{
 		{Name: "rdb2-mixed", Backend: "rdb2", Workers: workers, Millis: ms, FullPct: 25, Cache: true, Update: true},
-		{Name: "rdb1-mixed", Backend: "rdb1", Workers: workers, Millis: ms, FullPct: 25, Windows: true},
-		{Name: "cdb-mixed", Backend: "cdb", Workers: workers, Millis: ms, FullPct: 60, Windows: true, Cache: true},
+		{Name: "rdb1-mixed", Backend: "rdb1", Workers: workers, Millis: ms, FullPct: 25, Windows: true, Logger: "text"},
+		{Name: "cdb-mixed", Backend: "cdb", Workers: workers, Millis: ms, FullPct: 60, Windows: true, Cache: true, Logger: "dnstap"},
 		{Name: "rdb2-timeouts", Backend: "rdb2", Workers: workers, Millis: ms, FullPct: 20, TimeoutUs: 300},
 		{Name: "cdb-watcher", Backend: "cdb", Workers: workers / 2, Millis: ms, FullPct: 50, Watcher: true},
 		{Name: "rdb2-watcher", Backend: "rdb2", Workers: workers / 2, Millis: ms, FullPct: 30, Watcher: true, Windows: true},
